@@ -34,7 +34,8 @@ pub enum Pattern {
     Live { gap: u8, fragmented: bool },
     /// part of a frame, then nothing (frame read rate 1 s / 16 bytes, max 4 s)
     PartialStall,
-    /// a 200-byte frame trickling at 40 bytes (above the rate) or 4 bytes (below) per 0.5 s
+    /// 200-byte frames trickling at 40 bytes (above the rate: three frames in a row, each within the time allowed per frame)
+    /// or 4 bytes (below the rate) per 0.5 s
     Trickle { above: bool },
     /// part of the CONNECT, then nothing (connect timeout 1 s)
     ConnectStall,
@@ -121,6 +122,11 @@ async fn run_conn(c: Case) -> Verdict {
     if matches!(c.pattern, Pattern::PartialStall | Pattern::Trickle { .. }) {
         cfg.v3.frame_read_rate = Some((1, 4, 16));
         cfg.v5.frame_read_rate = Some((1, 4, 16));
+        if c.pattern == (Pattern::Trickle { above: true }) {
+            // at most 3 s per frame: a frame that takes 2.5 s sees at most two expiries of the 1 s timer
+            cfg.v3.frame_read_rate = Some((1, 3, 16));
+            cfg.v5.frame_read_rate = Some((1, 3, 16));
+        }
     }
     if matches!(c.pattern, Pattern::ConnectStall | Pattern::ConnectTrickle) {
         cfg.v3.connect_timeout = 1;
@@ -370,7 +376,13 @@ async fn run_conn(c: Case) -> Verdict {
         }
         Pattern::PartialStall | Pattern::Trickle { .. } => {
             let payload = vec![7u8; 200];
-            let frame = eut.encode(&P5::Publish(Box::new(s5::Publish5 { topic: "t/a".into(), payload_len: 200, ..Default::default() })), &payload);
+            let mut frame = eut.encode(&P5::Publish(Box::new(s5::Publish5 { topic: "t/a".into(), payload_len: 200, ..Default::default() })), &payload);
+            if c.pattern == (Pattern::Trickle { above: true }) {
+                // three such frames one after the other: the time allowance is per frame, not per connection
+                let again = frame.clone();
+                frame.extend_from_slice(&again);
+                frame.extend_from_slice(&again);
+            }
             let (step, stall) = match c.pattern {
                 Pattern::PartialStall => (10usize, true),
                 Pattern::Trickle { above: true } => (40, false),
@@ -392,7 +404,7 @@ async fn run_conn(c: Case) -> Verdict {
                 if sent >= frame.len() && i > 8 {
                     break;
                 }
-                if t0.elapsed() > Duration::from_millis(7500) {
+                if t0.elapsed() > Duration::from_millis(if frame.len() > 400 { 9500 } else { 7500 }) {
                     break;
                 }
             }
@@ -403,9 +415,9 @@ async fn run_conn(c: Case) -> Verdict {
             let read_timeout = stops.iter().any(|s| matches!(s, StopKind::Protocol(d) if d.contains("ReadTimeout")));
             match c.pattern {
                 Pattern::Trickle { above: true } => {
-                    // 80 bytes per second against a rate of 16 per second: completes in ~3 s, no read timeout
-                    if end_at.is_some() || app.pub_enters().len() != 1 {
-                        return Verdict::Fail(Failure::new("fast-enough-peer-timed-out", format!("C20/{}/fast-enough-peer-timed-out", c.role.name()), format!("a frame delivered at 80 bytes/s (required 16 bytes/s) ended the connection at {end_at:?} / was handled {} times: {stops:?}; case {c:?}", app.pub_enters().len())));
+                    // 80 bytes per second against a rate of 16 per second: each frame completes in ~2.5 s, no read timeout
+                    if end_at.is_some() || app.pub_enters().len() != 3 {
+                        return Verdict::Fail(Failure::new("fast-enough-peer-timed-out", format!("C20/{}/fast-enough-peer-timed-out", c.role.name()), format!("three frames delivered one after the other at 80 bytes/s, 2.5 s each (required: 16 bytes/s, at most 3 s per frame) ended the connection at {end_at:?} / were handled {} times: {stops:?}; case {c:?}", app.pub_enters().len())));
                     }
                     eut.finish().await;
                     Verdict::Ok(CaseInfo::nontrivial(&c).label("trickle-above-rate"))
